@@ -85,6 +85,9 @@ func init() {
 	mutant(&Mutant{Name: "c04-import-url-quote-test-at-fixed-position", Property: "C04", File: "css/css.go",
 		Old: "if a <= b && (url[a] == '\"' || url[a] == '\\'') {", New: "if a <= b && (url[4] == '\"' || url[4] == '\\'') {",
 		Rule: "R04.16", Construct: "quote test#1 at the start of the content"})
+	mutant(&Mutant{Name: "c04-background-size-taken-for-position", Property: "C04", File: "css/css.go",
+		Old: "\t\t\t\t\tfor k := 0; k < 2 && i+1 < end && (values[i+1].TokenType == css.NumberToken || values[i+1].IsLengthPercentage() || values[i+1].Ident == Auto); k++ {\n\t\t\t\t\t\ti++\n\t\t\t\t\t}\n\t\t\t\t\tcontinue\n", New: "\t\t\t\t\tcontinue\n",
+		Rule: "R04.18", Construct: "steps over the size"})
 	mutant(&Mutant{Name: "c04-custom-property-collapsed", Property: "C04", File: "css/css.go",
 		Old: "\t\t\tvalue := parse.TrimWhitespace(c.p.Values()[0].Data)\n", New: "\t\t\tvalue := parse.TrimWhitespace(parse.ReplaceMultipleWhitespace(c.p.Values()[0].Data))\n",
 		Rule: "R04.4", Construct: "confined to comment text"})
@@ -209,6 +212,7 @@ func runC04(c *Ctx) {
 	c.r0415(pk)
 	c.r0416(pk)
 	c.r0417(pk)
+	c.r0418(pk)
 	// positions remembered while rewriting a value list (background layers) stay valid: same rule as R10.5, css only
 	c.alsoUnder(map[string]string{"R10.5": "R04.8"}, func(construct string) bool {
 		return strings.HasPrefix(construct, "css.") || strings.HasPrefix(construct, "floor/")
@@ -437,6 +441,10 @@ func runC09(c *Ctx) {
 	// … and a JSON string that is rewritten can end the script element it is embedded in (`<\/script>` → `</script>`)
 	c.alsoUnder(map[string]string{"R07.3": "R09.7", "R07.12": "R09.10", "R07.1": "R09.14"}, nil, func() { runC07own(c) })
 	c.r098()
+	// a declaration that ends in a dangling `/` is not valid CSS
+	if pk := c.P.Pkg("css"); pk != nil {
+		c.alsoUnder(map[string]string{"R04.18": "R09.19"}, nil, func() { c.r0418(pk) })
+	}
 	// `]]>` in the character data of XML / SVG output is not well-formed
 	c.r069("R09.16", "xml")
 	c.r069("R09.17", "svg")
@@ -1370,4 +1378,82 @@ func (c *Ctx) r0417(pk *packages.Package) {
 		c.R.Check(keyword, rule, fmt.Sprintf("css.cssMinifier.minifyProperty/case Font_Family/quotes removed#%d not from a keyword", n), c.pos(as), "behind a look-up in a keyword set", "the quotes of a family name are removed whenever its words are identifiers: `font-family:\"serif\"` → `font-family:serif` selects the generic family instead of the font called serif, `\"inherit\"` becomes the CSS-wide keyword (the suite pins `\"Sans-Serif\"` → `sans-serif`)")
 	}
 	c.R.Floor(rule, "unquoting assignments in case Font_Family", n, 1)
+}
+
+// R04.18: the position of a background layer is minified, its size is not mistaken for one.
+func (c *Ctx) r0418(pk *packages.Package) {
+	const rule = "R04.18"
+	c.R.Rule(rule, "`background: <position> / <size>`: what follows the slash is the size. The loop of cssMinifier.minifyProperty, case Background, that rewrites a run of numbers and side keywords as a background-position (minifyProperty(Background_Position, values[i:j]), default `0 0` removed) walks over the whole layer; it must step over the size when it meets the slash — a branch on `values[i]` being the `/` delimiter that advances i and continues — or `0 0 / 0 0` has its size removed as if it were a default position and the declaration ends in a dangling `/`")
+	info := pk.TypesInfo
+	fd := c.fn(rule, pk, "cssMinifier.minifyProperty")
+	if fd == nil {
+		return
+	}
+	n := 0
+	ast.Inspect(fd.Body, func(x ast.Node) bool {
+		fs, ok := x.(*ast.ForStmt)
+		if !ok {
+			return true
+		}
+		// the innermost for statement whose body holds the Background_Position rewrite
+		holds := false
+		ast.Inspect(fs.Body, func(z ast.Node) bool {
+			if inner, ok := z.(*ast.ForStmt); ok && inner != fs {
+				// a nested loop holding the call makes the nested one the candidate
+				nested := false
+				ast.Inspect(inner.Body, func(w ast.Node) bool {
+					if ce, ok := w.(*ast.CallExpr); ok && strings.HasSuffix(calleeName(info, ce), ".(cssMinifier).minifyProperty") && len(ce.Args) == 2 && nospace(str(ce.Args[0])) == "Background_Position" {
+						nested = true
+					}
+					return true
+				})
+				if nested {
+					return false
+				}
+			}
+			if ce, ok := z.(*ast.CallExpr); ok && strings.HasSuffix(calleeName(info, ce), ".(cssMinifier).minifyProperty") && len(ce.Args) == 2 && nospace(str(ce.Args[0])) == "Background_Position" {
+				holds = true
+			}
+			return true
+		})
+		if !holds {
+			return true
+		}
+		// loop variable
+		loopVar := ""
+		if as, ok := fs.Init.(*ast.AssignStmt); ok && len(as.Lhs) == 1 {
+			loopVar = nospace(str(as.Lhs[0]))
+		}
+		if loopVar == "" {
+			return true
+		}
+		n++
+		skips := false
+		for _, st := range fs.Body.List {
+			ifs, ok := st.(*ast.IfStmt)
+			if !ok {
+				continue
+			}
+			cs := nospace(str(ifs.Cond))
+			if !strings.Contains(cs, "["+loopVar+"].TokenType==css.DelimToken") || !strings.Contains(cs, "'/'") {
+				continue
+			}
+			advances, continues := false, false
+			ast.Inspect(ifs.Body, func(z ast.Node) bool {
+				if inc, ok := z.(*ast.IncDecStmt); ok && inc.Tok == token.INC && nospace(str(inc.X)) == loopVar {
+					advances = true
+				}
+				if bs, ok := z.(*ast.BranchStmt); ok && bs.Tok == token.CONTINUE {
+					continues = true
+				}
+				return true
+			})
+			if advances && continues {
+				skips = true
+			}
+		}
+		c.R.Check(skips, rule, fmt.Sprintf("css.cssMinifier.minifyProperty/case Background/position rewrite#%d steps over the size", n), c.pos(fs), "a branch on the `/` delimiter advances past the size and continues", "the loop that rewrites background positions has no branch that steps over what follows the `/`: the size is rewritten as a position, and a size of `0 0` is removed as the default position — `background:url(a.png) 0 0 / 0 0` → `background:url(a.png)0 0/`, which is invalid")
+		return false
+	})
+	c.R.Floor(rule, "loops holding the background-position rewrite", n, 1)
 }
